@@ -194,14 +194,6 @@ Proof.
       destruct (bytes_eqb p q); [discriminate|]. destruct (bytes_eqb p q'); [discriminate|]. apply H4.
 Qed.
 
-(* the renders of a history as the cache-free specification gives them *)
-Fixpoint run_spec (fuel : nat) (cfg : config) (st : est) (h : list step) : list (res bytes) :=
-  match h with
-  | [] => []
-  | Edit p new :: r => run_spec fuel cfg (do_edit st p new) r
-  | Render name caller :: r => spec_render fuel cfg (s_fs st) name caller :: run_spec fuel cfg st r
-  end.
-
 Lemma run_spec_cache_irrel fuel cfg : forall h st st', s_fs st = s_fs st' -> s_next st = s_next st' ->
   run_spec fuel cfg st h = run_spec fuel cfg st' h.
 Proof.
